@@ -62,14 +62,14 @@ IO_RE = re.compile(
     r"((\.)(?P<position_number>\d{1,3}))?"
     r"(/(?P<sub_element>\d{1,2}))?"
     r"(?P<_elem_cnt_token>{(?P<element_count>\d+)})?",
-    flags=re.IGNORECASE,
+    flags=re.IGNORECASE | re.ASCII,
 )
 
 CT_RE = re.compile(
     r"(?P<file_type>[CT])(?P<file_number>\d{1,3})"
     r"(:)(?P<element_number>\d{1,3})"
     r"(.)(?P<sub_element>ACC|PRE|EN|DN|TT|CU|CD|DN|OV|UN|UA)",
-    flags=re.IGNORECASE,
+    flags=re.IGNORECASE | re.ASCII,
 )
 
 LFBN_RE = re.compile(
@@ -77,7 +77,7 @@ LFBN_RE = re.compile(
     r"(:)(?P<element_number>\d{1,3})"
     r"(/(?P<sub_element>\d{1,2}))?"
     r"(?P<_elem_cnt_token>{(?P<element_count>\d+)})?",
-    flags=re.IGNORECASE,
+    flags=re.IGNORECASE | re.ASCII,
 )
 
 S_RE = re.compile(
@@ -85,28 +85,28 @@ S_RE = re.compile(
     r"(:)(?P<element_number>\d{1,3})"
     r"(/(?P<sub_element>\d{1,2}))?"
     r"(?P<_elem_cnt_token>{(?P<element_count>\d+)})?",
-    flags=re.IGNORECASE,
+    flags=re.IGNORECASE | re.ASCII,
 )
 
 A_RE = re.compile(
     r"(?P<file_type>A)(?P<file_number>\d{1,3})"
     r"(:)(?P<element_number>\d{1,4})"
     r"(?P<_elem_cnt_token>{(?P<element_count>\d+)})?",
-    flags=re.IGNORECASE,
+    flags=re.IGNORECASE | re.ASCII,
 )
 
 B_RE = re.compile(
     r"(?P<file_type>B)(?P<file_number>\d{1,3})"
     r"(/)(?P<element_number>\d{1,4})"
     r"(?P<_elem_cnt_token>{(?P<element_count>\d+)})?",
-    flags=re.IGNORECASE,
+    flags=re.IGNORECASE | re.ASCII,
 )
 
 ST_RE = re.compile(
     r"(?P<file_type>ST)(?P<file_number>\d{1,3})"
     r"(:)(?P<element_number>\d{1,4})"
     r"(?P<_elem_cnt_token>{(?P<element_count>[12])})?",
-    flags=re.IGNORECASE,
+    flags=re.IGNORECASE | re.ASCII,
 )
 
 
@@ -613,6 +613,8 @@ def parse_tag(tag: str) -> Optional[dict]:
         tag_name = t.group(0).replace(_cnt, "") if _cnt else t.group(0)
         file_number = "0" if t.group("file_type").upper() == "O" else "1"
         position_number = "0" if t.group("position_number") == None else t.group("position_number")
+        if t.group("file_number") not in (None, file_number) or not 0 <= int(position_number) <= 255:
+            return None  # the output file is file 0, the input file is file 1; word numbers are one byte
         if t.group("sub_element") is not None:
             if (
                 (0 <= int(file_number) <= 255)
